@@ -20,6 +20,14 @@ indices and any subset of the proofs malformed (first / last node of 31, 33, 0 o
 and is one well-formed proof of the reply, 5xx when there is none (ProofNeverMalformed); which proof is served, and
 whether a malformed proof that is not served must fail the request, is the named unasserted clause ServedProofUnasserted.
 
+Request shapes (CTFEFaults!EntryShapes): a get-entry-and-proof reply with an absent part (nil leaf, empty leaf value, nil
+Proof, Proof without hashes) is crossed with the request (leaf_index, tree_size): first / later / last leaf of a tree of
+1, 2, 4, 5 leaves.  A Proof without hashes is the honest reply exactly for tree_size = 1 (named clause
+SingleLeafEmptyPath: 200 with an empty audit_path); under every other shape it is 5xx (EntryShapeLaws).
+Method tokens (CTFEFaults!MethodTokens): every endpoint x every token that is not exactly its method - the other
+standard methods and the letter-case variants of GET and POST (get, Get, gET, GEt, post, Post, pOST, POSt; tokens are
+case-sensitive, RFC 9110 9.1) - with the otherwise valid query / body: 4xx before any backend call, no SCT (MethodLaws).
+
 Schedules (spec/ctfe/CTFETrace.tla over CTFE.tla): requests overlap.  The harness parks the backend call of one
 request inside the backend, sends further requests (mostly the same endpoint of the same front end, half of them the
 very same request), lets the tree grow, and only then lets the parked call fail (refusal or lost reply).  Every request
@@ -46,6 +54,9 @@ def run(ctx, replay=None):
         "status is the mapper's; the mappers of the matrix answer 4xx / 5xx only (a mapper that says 2xx is not generated)",
         "named clause ServedProofUnasserted: of a get-proof-by-hash backend reply with several proofs any well-formed one may "
         "be served (or 5xx); the extra proofs are genuine audit paths of the backend's tree for other leaf indices",
+        "named clause SingleLeafEmptyPath: a GetEntryAndProof reply that carries the leaf and a Proof without hashes to a "
+        "request with tree_size = 1 is the honest reply (200, empty audit_path), not a fault; for every other request "
+        "shape it is a reply whose proof is absent (5xx)",
         "reference backend; the fault matrix runs in the in-backend (direct) issuance-chain mode; the external chain "
         "storage mode (where a reply is post-processed leaf by leaf before the handler's own checks) is covered by the "
         "ChainStore.tla replay and its page matrix: a page with one leaf that cannot be fixed up, at every position and "
